@@ -51,7 +51,8 @@ func LogSnapshot() []string {
 	return append([]string(nil), logBuf...)
 }
 
-func Point(kind string) {}
+func Point(kind string)         {}
+func PointExternal(kind string) {}
 func Quiesce()          { time.Sleep(30 * time.Millisecond) }
 func Yield()            {}
 
